@@ -367,8 +367,13 @@ def run(ctx):
                 const = (hirq.def_path(c["a"][0]) or "?").split("::")[-1]
                 bits = const_eval(c["a"][2])
                 bound = None
+                written = local_of(hirq.resolve(fn, c["a"][1]))
                 for a, pol in hirq.guard_atoms(fn, c):
                     if pol and isinstance(a, dict) and a.get("k") == "bin" and a["op"] in ("Lt", "Le"):
+                        # the test must be about the value that is written (not, say, a character count next to a byte length)
+                        tested = local_of(hirq.resolve(fn, a["l"]))
+                        if written is None or tested != written:
+                            continue
                         bv = const_eval(a["r"])
                         if isinstance(bv, int):
                             if a["op"] == "Le":
